@@ -1,5 +1,9 @@
-"""run in a FRESH interpreter: for every (string, seed) read from stdin (JSON lines) parse a fresh object and generate once"""
+"""run in a FRESH interpreter: for every (string, seed) read from stdin (JSON lines) parse a fresh object and generate once.
+Every pair is computed in its own forked child of this interpreter, forked right after the import of the library: whatever the library keeps at
+module level (caches, templates, counters, the global generator) is, for every pair, in the state a new process has — one pair cannot colour the
+baseline of another."""
 import json
+import os
 import sys
 import warnings
 
@@ -10,6 +14,13 @@ import gbigsmiles  # noqa: E402
 
 for line in sys.stdin:
     text, seed = json.loads(line)
+    sys.stdout.flush()
+    pid = os.fork()
+    if pid != 0:
+        _, status = os.waitpid(pid, 0)
+        if status != 0:
+            print("@@C10 " + json.dumps({"error": f"ChildDied: status {status}"}), flush=True)
+        continue
     try:
         if text.startswith("SYSTEM:"):
             m = gbigsmiles.System(text[7:])
@@ -20,3 +31,4 @@ for line in sys.stdin:
     except Exception as exc:
         out = {"error": type(exc).__name__ + ": " + str(exc)[:100]}
     print("@@C10 " + json.dumps(out), flush=True)     # marked: the library (or a changed version of it) may print to stdout too
+    os._exit(0)
